@@ -95,6 +95,21 @@ theorem find?_name {O : List α} {n : String} {o : α} (h : O.find? (fun y => (n
     o ∈ O ∧ (nm o) = n :=
   ⟨List.mem_of_find?_eq_some h, by simpa using List.find?_some h⟩
 
+/-- in a list with unique names, looking a member's name up finds it -/
+theorem find?_of_mem {l : List α} (h : (names l).Nodup) {x : α} (hx : x ∈ l) :
+    l.find? (fun y => (nm y) == (nm x)) = some x := by
+  induction l with
+  | nil => cases hx
+  | cons a r ih =>
+    rw [names, List.map_cons, List.nodup_cons] at h
+    rw [List.find?_cons]
+    rcases List.mem_cons.mp hx with rfl | hx'
+    · simp
+    · have : (nm a) ≠ (nm x) := fun he => h.1 (he ▸ List.mem_map_of_mem hx')
+      have : ((nm a) == (nm x)) = false := by simpa using this
+      rw [this]
+      exact ih h.2 hx'
+
 theorem find?_none_name {O : List α} {n : String} (h : O.find? (fun y => (nm y) == n) = none) : n ∉ names O := by
   intro hm
   obtain ⟨x, hx, he⟩ := List.mem_map.mp hm
@@ -636,6 +651,164 @@ theorem emitDownKeep_correct (N O : List α) (hN : (names N).Nodup) (hO : (names
     (hnr : ∀ s ∈ N, ∀ o ∈ O, (nm s) = (nm o) → s = o) : ∃ R, execAll N (emitDownKeep N O) = some R ∧ R.Perm O := by
   rw [emitDownKeep_eq N O hnr]
   exact emitDown_correct N O hN hO
+
+-- ---------------------------------------------------------------------------------------------------------------
+-- plans: the general form (used for the index walk in the presence of dropped columns)
+
+/-- what a plan does with one name -/
+inductive Act | drop | create | replace
+  deriving DecidableEq, Repr
+
+/-- the statements of one plan entry, the created record being the target's record of that name -/
+def planOne (T : List α) (p : String × Act) : List (IStmt α) :=
+  match p.2 with
+  | .drop => [.drop p.1]
+  | .create => match T.find? (fun y => (nm y) == p.1) with
+    | some t => [.create t]
+    | none => []
+  | .replace => match T.find? (fun y => (nm y) == p.1) with
+    | some t => [.drop p.1, .create t]
+    | none => [.drop p.1]
+
+/-- a plan entry fits the start list `S0` and the target `T` -/
+def Fits (S0 T : List α) (p : String × Act) : Prop :=
+  match p.2 with
+  | .drop => p.1 ∈ names S0 ∧ p.1 ∉ names T
+  | .create => p.1 ∉ names S0 ∧ p.1 ∈ names T
+  | .replace => p.1 ∈ names S0 ∧ p.1 ∈ names T
+
+/-- the list while the names `Q` have been handled: the start records of the other names, the target records of these -/
+def InvP (S0 T S : List α) (Q : List String) : Prop :=
+  S.Nodup ∧ ∀ x, x ∈ S ↔ (x ∈ S0 ∧ (nm x) ∉ Q) ∨ (x ∈ T ∧ (nm x) ∈ Q)
+
+theorem stepP (S0 T S : List α) (Q : List String) (p : String × Act) (hT : (names T).Nodup)
+    (hinv : InvP S0 T S Q) (hq : p.1 ∉ Q) (hfit : Fits S0 T p) :
+    ∃ S', execAll S (planOne T p) = some S' ∧ InvP S0 T S' (Q ++ [p.1]) := by
+  obtain ⟨n, a⟩ := p
+  obtain ⟨hnd, hmem⟩ := hinv
+  simp only at hq
+  have hfilt : ∀ x, x ∈ S.filter (fun y => (nm y) != n) ↔ x ∈ S ∧ (nm x) ≠ n := by
+    intro x; simp [List.mem_filter]
+  have hsn : ∀ k, k ∈ Q ++ [n] ↔ k ∈ Q ∨ k = n := by intro k; simp
+  -- a start record of that name is still there
+  have hpresent : n ∈ names S0 → ∃ x ∈ S, (nm x) = n := by
+    intro h
+    obtain ⟨x, hx, he⟩ := List.mem_map.mp h
+    exact ⟨x, (hmem x).mpr (Or.inl ⟨hx, by rw [he]; exact hq⟩), he⟩
+  -- the target record of that name can be created once no start record of that name is left
+  have hcreate : ∀ (S1 : List α) (t : α), t ∈ T → (nm t) = n → S1.Nodup →
+      (∀ x, x ∈ S1 ↔ ((x ∈ S0 ∧ (nm x) ∉ Q) ∨ (x ∈ T ∧ (nm x) ∈ Q)) ∧ (nm x) ≠ n) →
+      exec S1 (.create t) = some (S1 ++ [t]) ∧ InvP S0 T (S1 ++ [t]) (Q ++ [n]) := by
+    intro S1 t htT htn hnd1 hm1
+    have hfresh : ∀ x ∈ S1, (nm x) ≠ (nm t) := by
+      intro x hx; rw [htn]; exact ((hm1 x).mp hx).2
+    refine ⟨exec_create hfresh, ?_, ?_⟩
+    · rw [List.nodup_append]
+      refine ⟨hnd1, by simp, ?_⟩
+      intro a ha b hb hab
+      have : b = t := by simpa using hb
+      subst this; subst hab
+      exact hfresh a ha rfl
+    · intro x
+      rw [List.mem_append, hm1, hsn]
+      constructor
+      · rintro (⟨h | h, hne⟩ | h)
+        · exact Or.inl ⟨h.1, fun hc => hc.elim h.2 hne⟩
+        · exact Or.inr ⟨h.1, Or.inl h.2⟩
+        · have : x = t := by simpa using h
+          subst this
+          exact Or.inr ⟨htT, Or.inr htn⟩
+      · rintro (h | h)
+        · exact Or.inl ⟨Or.inl ⟨h.1, fun hc => h.2 (Or.inl hc)⟩, fun he => h.2 (Or.inr he)⟩
+        · rcases h.2 with h2 | h2
+          · exact Or.inl ⟨Or.inr ⟨h.1, h2⟩, fun he => hq (he ▸ h2)⟩
+          · have : x = t := eq_of_name hT h.1 htT (h2.trans htn.symm)
+            subst this
+            exact Or.inr (by simp)
+  cases a with
+  | drop =>
+    obtain ⟨h1, h2⟩ : n ∈ names S0 ∧ n ∉ names T := hfit
+    refine ⟨S.filter (fun y => (nm y) != n), ?_, hnd.sublist List.filter_sublist, ?_⟩
+    · simp only [planOne, execAll, exec_drop (hpresent h1), Option.bind_some]
+    · intro x
+      rw [hfilt, hmem, hsn]
+      constructor
+      · rintro ⟨h | h, hne⟩
+        · exact Or.inl ⟨h.1, fun hc => hc.elim h.2 hne⟩
+        · exact Or.inr ⟨h.1, Or.inl h.2⟩
+      · rintro (h | h)
+        · exact ⟨Or.inl ⟨h.1, fun hc => h.2 (Or.inl hc)⟩, fun he => h.2 (Or.inr he)⟩
+        · have hxne : (nm x) ≠ n := fun he => h2 (he ▸ List.mem_map_of_mem h.1)
+          rcases h.2 with h3 | h3
+          · exact ⟨Or.inr ⟨h.1, h3⟩, hxne⟩
+          · exact absurd h3 hxne
+  | create =>
+    obtain ⟨h1, h2⟩ : n ∉ names S0 ∧ n ∈ names T := hfit
+    obtain ⟨t, htT, htn⟩ := List.mem_map.mp h2
+    have hfind : T.find? (fun y => (nm y) == n) = some t := by
+      rw [← htn]; exact find?_of_mem hT htT
+    have hm1 : ∀ x, x ∈ S ↔ ((x ∈ S0 ∧ (nm x) ∉ Q) ∨ (x ∈ T ∧ (nm x) ∈ Q)) ∧ (nm x) ≠ n := by
+      intro x
+      rw [hmem]
+      constructor
+      · intro h
+        refine ⟨h, ?_⟩
+        rcases h with h | h
+        · exact fun he => h1 (he ▸ List.mem_map_of_mem h.1)
+        · exact fun he => hq (he ▸ h.2)
+      · exact fun h => h.1
+    obtain ⟨e, hi⟩ := hcreate S t htT htn hnd hm1
+    exact ⟨S ++ [t], by simp only [planOne, hfind, execAll, e, Option.bind_some], hi⟩
+  | replace =>
+    obtain ⟨h1, h2⟩ : n ∈ names S0 ∧ n ∈ names T := hfit
+    obtain ⟨t, htT, htn⟩ := List.mem_map.mp h2
+    have hfind : T.find? (fun y => (nm y) == n) = some t := by
+      rw [← htn]; exact find?_of_mem hT htT
+    have hm1 : ∀ x, x ∈ S.filter (fun y => (nm y) != n) ↔
+        ((x ∈ S0 ∧ (nm x) ∉ Q) ∨ (x ∈ T ∧ (nm x) ∈ Q)) ∧ (nm x) ≠ n := by
+      intro x; rw [hfilt, hmem]
+    obtain ⟨e, hi⟩ := hcreate _ t htT htn (hnd.sublist List.filter_sublist) hm1
+    exact ⟨_, by simp only [planOne, hfind, execAll, exec_drop (hpresent h1), Option.bind_some, e], hi⟩
+
+/-- **plans are correct**: a plan whose entries have pairwise different names and fit, and that leaves only names alone
+    whose records agree on both sides, is well-formed at every step from the start list and ends in the target up to order -/
+theorem plan_correct (S0 T : List α) (hS : (names S0).Nodup) (hT : (names T).Nodup) (pl : List (String × Act))
+    (hpn : (pl.map (·.1)).Nodup) (hfit : ∀ p ∈ pl, Fits S0 T p)
+    (hrest : ∀ x, (nm x) ∉ pl.map (·.1) → (x ∈ S0 ↔ x ∈ T)) :
+    ∃ R, execAll S0 (pl.flatMap (planOne T)) = some R ∧ R.Perm T := by
+  have key : ∀ (rest : List (String × Act)) (Q : List String) (S : List α), (Q ++ rest.map (·.1)).Nodup →
+      (∀ p ∈ rest, Fits S0 T p) → InvP S0 T S Q →
+      ∃ S', execAll S (rest.flatMap (planOne T)) = some S' ∧ InvP S0 T S' (Q ++ rest.map (·.1)) := by
+    intro rest
+    induction rest with
+    | nil => intro Q S _ _ h; exact ⟨S, rfl, by simpa using h⟩
+    | cons p rest ih =>
+      intro Q S hnd hf hinv
+      have hq : p.1 ∉ Q := by
+        rw [List.nodup_append] at hnd
+        intro hm
+        exact hnd.2.2 p.1 hm p.1 (by simp) rfl
+      obtain ⟨S1, h1, hinv1⟩ := stepP S0 T S Q p hT hinv hq (hf p (by simp))
+      have he : Q ++ (p :: rest).map (·.1) = (Q ++ [p.1]) ++ rest.map (·.1) := by simp
+      rw [he] at hnd ⊢
+      obtain ⟨S', h2, hinv2⟩ := ih (Q ++ [p.1]) S1 hnd (fun x hx => hf x (by simp [hx])) hinv1
+      refine ⟨S', ?_, hinv2⟩
+      rw [List.flatMap_cons, execAll_append, h1, Option.bind_some]
+      exact h2
+  have h0 : InvP S0 T S0 [] := ⟨nodup_of_names hS, by intro x; simp⟩
+  obtain ⟨R, hR, hnd, hmem⟩ := key pl [] S0 (by simpa using hpn) hfit h0
+  refine ⟨R, hR, ?_⟩
+  rw [List.perm_ext_iff_of_nodup hnd (nodup_of_names hT)]
+  intro x
+  rw [hmem, List.nil_append]
+  constructor
+  · rintro (h | h)
+    · exact (hrest x h.2).mp h.1
+    · exact h.1
+  · intro hx
+    by_cases hn : (nm x) ∈ pl.map (·.1)
+    · exact Or.inr ⟨hx, hn⟩
+    · exact Or.inl ⟨(hrest x hn).mpr hx, hn⟩
 
 -- the statements are non-trivial and the hypotheses satisfiable
 example : emit (α := IdxSpec) [⟨"a", ["x"], false, "BTREE"⟩, ⟨"b", ["y"], true, "BTREE"⟩, ⟨"n", ["z"], false, "HASH"⟩]
